@@ -33,6 +33,11 @@ class UserTransform:
         self.span = None
 
     def __call__(self, x):
+        _h = UF_HOOK[0]
+        if _h is not None:
+            # interleaving seam (see UF_HOOK below): another operation is issued from inside this transform call
+            UF_HOOK[0] = None
+            _h()
         if self.lo is None:
             self.lo = np.min(x)
             self.span = np.max(x) - np.min(x) + 1.0
@@ -77,7 +82,8 @@ def register_clash(name):
     return register_stateful_transform(Clash)
 
 
-# Interleaving seam: when the simulator arms UF_HOOK[0], the next call of a client's ``uf`` (made by formulae in the
+# Interleaving seam: when the simulator arms UF_HOOK[0], the next call of a client's ``uf`` or of the user-registered
+# stateful transform ``ut`` (made by formulae in the
 # middle of a build or an evaluation) first runs that callable -- a nested operation issued by user code --
 # and then computes its value as usual.  Never armed in the fresh-process reference.
 UF_HOOK = [None]
